@@ -46,7 +46,7 @@ def describe() -> dict:
         ),
         "real": ["aas_core_codegen (all of it, from the working tree)", "pathlib", "pickle",
                  "io buffering", "tmpfs kernel file system (rename/unlink/O_EXCL semantics)"],
-        "stub": ["process identity: threads as processes with virtual pid and per-actor uuid4 stream",
+        "stub": ["process identity: threads as processes with virtual pid (unique, or in 20 % of the runs all equal = separate PID namespaces on a shared volume) and per-actor uuid4 stream",
                  "scheduler: seeded baton passing at every stat/open/read/write/close/mkdir/rename/unlink on the temp dir",
                  "crash: SimCrash unwind + suppression of every later file-system effect of that actor",
                  "raw I/O chunking (short reads/writes), injected errno values"],
@@ -134,6 +134,8 @@ def gen_plan(seed: int, run: int, tier: str) -> dict:
         "bufsize": rng.choice([64, 512, 4096, 8192, 8192, 65536]),
         "max_io": rng.choice([65536, 1 << 20]) if big else rng.choice([257, 1024, 4096, 1 << 16, 1 << 30]),
         "big": big,
+        # runs in separate PID namespaces sharing the cache volume: os.getpid() collides
+        "same_pid": rng.random() < 0.2,
         "p_w": rng.choice([0.02, 0.05, 0.15, 0.4]),
         "max_faults": rng.choice([1, 1, 2]) if config == "crash" else (1 if config == "errno" else 0),
     }
@@ -252,6 +254,7 @@ def execute(plan: dict) -> dict:
             bufsize=int(knobs.get("bufsize", 8192)), max_io=int(knobs.get("max_io", 1 << 30)),
             step_cap=int(knobs.get("step_cap", 40000 if knobs.get("big") else 4000)),
             watchdog_s=1800.0 if knobs.get("big") else 900.0,
+            same_pid=bool(knobs.get("same_pid", False)),
         )
         sim.pre_faults = 0  # type: ignore[attr-defined]
         results: Dict[str, repo.RunResult] = {}
@@ -309,6 +312,8 @@ def execute(plan: dict) -> dict:
         stats["sched_points"] = sim.sched_points
         stats[f"config:{plan['config']}"] = 1
         stats[f"policy:{plan['policy']['kind']}"] = 1
+        if knobs.get("same_pid"):
+            stats["probe:runs_with_colliding_pids"] = 1
         for f in sim.faults_fired:
             label = f["fault"] + ("@" + f["op"])
             stats["fault:" + label] = stats.get("fault:" + label, 0) + 1
@@ -457,6 +462,10 @@ def reductions(plan: dict) -> Iterator[dict]:
         p = clone()
         p["knobs"]["max_io"] = 1 << 30
         p["knobs"]["bufsize"] = 8192
+        yield p
+    if plan["knobs"].get("same_pid"):
+        p = clone()
+        p["knobs"]["same_pid"] = False
         yield p
     # remove text edits
     for i, t in enumerate(plan["texts"]):
